@@ -1026,3 +1026,100 @@ Proof.
   rewrite E1. destruct (is_AL (p_acc p)) eqn:EAL; [|exact Hs]. cbn [v_qty]. unfold pos_add.
   intros x Hin. apply sm_put_in in Hin. destruct Hin as [->|Hin]; [exact EAL|apply Hs; exact Hin].
 Qed.
+
+(* ------------------------------------------------------------ accounts that are never revalued *)
+
+Definition dummy_com (v : commodity) : commodity := 0%Z :: v.
+Lemma dummy_com_neq v : dummy_com v <> v.
+Proof. unfold dummy_com. intros E. apply (f_equal (@length Z)) in E. cbn [length] in E. lia. Qed.
+
+Definition entries_ok (m : positions) : Prop := keys_sorted m /\ (forall x, In x m -> entry_ok x).
+
+Lemma entries_ok_good a c m : entries_ok m <-> good a c PT m.
+Proof.
+  unfold entries_ok, good. split.
+  - intros [H1 H2]. split; [exact H1|]. split; [exact H2|]. intros; exact I.
+  - intros (H1 & H2 & _). split; assumption.
+Qed.
+
+(* the position map stays well formed over any run of the stage *)
+Lemma days_entries_ok v ds s s' ds' :
+  Forall posting_in_ok (days_postings ds) -> entries_ok (v_qty s) ->
+  process_days (valuate_proc v) s ds = ROk (s', ds') -> entries_ok (v_qty s').
+Proof.
+  intros Hin Hs H.
+  assert (Ha : account_ok [s_Assets] = true) by reflexivity.
+  assert (HAL : is_AL [s_Assets] = true) by reflexivity.
+  destruct (mtm_delta v [s_Assets] (dummy_com v) ds s s' ds' Ha HAL (dummy_com_neq v) Hin
+              (proj1 (entries_ok_good _ _ _) Hs) H) as (_ & G & _).
+  exact (proj2 (entries_ok_good _ _ _) G).
+Qed.
+
+Lemma fold_postings_count v b cb t ps : forall s s' ps',
+  fold_postings (val_posting v) t s ps = ROk (s', ps') -> cell_count b cb ps' = cell_count b cb ps.
+Proof.
+  induction ps as [|p ps IH]; intros s s' ps' H; cbn [fold_postings] in H.
+  - injection H as _ <-. reflexivity.
+  - destruct (val_posting v s t p) as [[s1 p1]| |] eqn:E1; cbn [rbind fst snd] in H; try discriminate.
+    destruct (fold_postings (val_posting v) t s1 ps) as [[s2 ps2]| |] eqn:E2; cbn [rbind fst snd] in H; try discriminate.
+    injection H as _ <-. cbn [cell_count]. rewrite (IH _ _ _ E2).
+    destruct (val_posting_value _ _ _ _ _ _ E1) as (Ea & _ & Ec & _). unfold cellb. rewrite Ea, Ec. reflexivity.
+Qed.
+
+Lemma fold_txns_count v b cb ts : forall s s' ts',
+  fold_txns (valuate_proc v) s ts = ROk (s', ts') ->
+  cell_count b cb (txns_postings ts') = cell_count b cb (txns_postings ts).
+Proof.
+  induction ts as [|t ts IH]; intros s s' ts' H; cbn [fold_txns] in H.
+  - injection H as _ <-. reflexivity.
+  - cbn [valuate_proc pr_txn pr_posting rbind] in H.
+    destruct (fold_postings (val_posting v) t s (t_postings t)) as [[s1 ps1]| |] eqn:E1; cbn [rbind fst snd] in H; try discriminate.
+    destruct (fold_txns (valuate_proc v) s1 ts) as [[s2 ts2]| |] eqn:E2; cbn [rbind fst snd] in H; try discriminate.
+    injection H as _ <-. unfold txns_postings in *. cbn [map concat t_postings].
+    rewrite !cell_count_app, (IH _ _ _ E2), (fold_postings_count _ _ _ _ _ _ _ _ E1). reflexivity.
+Qed.
+
+(* the revaluation transactions touch asset/liability accounts and Income accounts only *)
+Lemma adjustments_other_accounts v date prev cur pos ts b cb :
+  val_adjustments v date prev cur pos = ROk ts ->
+  (forall x, In x pos -> entry_ok x) ->
+  account_ok b = true -> is_AL b = false -> acc_type b <> Some Income ->
+  cell_count b cb (txns_postings ts) = 0%Z.
+Proof.
+  intros H He Hb HnAL HnI. pose proof (val_adjustments_only_AL _ _ _ _ _ _ H) as F.
+  clear H. induction F as [|t ts (k & a & c & q & gain & Hin & HAL & _ & _ & Hps) _ IH]; [reflexivity|].
+  unfold txns_postings in *. cbn [map concat]. rewrite cell_count_app, IH, Hps, Z.add_0_r.
+  pose proof (He _ Hin) as (_ & Ha & _). cbn [fst snd] in Ha.
+  assert (N1 : acc_eqb a b = false).
+  { destruct (acc_eqb a b) eqn:E; [|reflexivity]. apply acc_eqb_name in E. apply acc_name_inj in E; [|assumption|assumption]. congruence. }
+  assert (N2 : acc_eqb (valuation_account_for a) b = false).
+  { destruct (acc_eqb (valuation_account_for a) b) eqn:E; [|reflexivity]. apply acc_eqb_name in E.
+    apply acc_name_inj in E; [|apply valuation_account_ok; assumption|assumption].
+    exfalso. apply HnI. rewrite <- E. reflexivity. }
+  unfold pair_build. destruct (is_neg dec_nil || is_zero dec_nil && is_neg gain); cbv beta iota zeta;
+    cbn [cell_count]; unfold cellb; cbn [p_acc]; rewrite N1, N2; reflexivity.
+Qed.
+
+Theorem other_accounts_not_revalued v b cb : 
+  account_ok b = true -> is_AL b = false -> acc_type b <> Some Income ->
+  forall ds s s' ds',
+  Forall posting_in_ok (days_postings ds) -> entries_ok (v_qty s) ->
+  process_days (valuate_proc v) s ds = ROk (s', ds') ->
+  cell_count b cb (days_postings ds') = cell_count b cb (days_postings ds).
+Proof.
+  intros Hb HnAL HnI. induction ds as [|d r IH]; intros s s' ds' Hin Hs H; cbn [process_days] in H.
+  - injection H as _ <-. reflexivity.
+  - destruct (process_day (valuate_proc v) s d) as [[s1 d1]| |] eqn:E1; cbn [rbind fst snd] in H; try discriminate.
+    destruct (process_days (valuate_proc v) s1 r) as [[s2 r2]| |] eqn:E2; cbn [rbind fst snd] in H; try discriminate.
+    injection H as _ <-.
+    unfold days_postings in Hin. cbn [map concat] in Hin. apply Forall_app in Hin. destruct Hin as [Hd Hr].
+    assert (E1' : process_days (valuate_proc v) s [d] = ROk (s1, [d1])) by (cbn [process_days]; rewrite E1; reflexivity).
+    assert (Hd' : Forall posting_in_ok (days_postings [d])).
+    { unfold days_postings. cbn [map concat]. rewrite app_nil_r. exact Hd. }
+    pose proof (days_entries_ok v [d] s s1 [d1] Hd' Hs E1') as Hs1.
+    unfold days_postings in *. cbn [map concat]. rewrite !cell_count_app, (IH _ _ _ Hr Hs1 E2). f_equal.
+    destruct (valuate_day_inv _ _ _ _ _ E1) as (ts & sx & txns' & Eadj & Efold & _ & Etx & _).
+    unfold day_postings. rewrite Etx. fold (txns_postings txns'). fold (txns_postings (d_txns d)).
+    rewrite (fold_txns_count _ b cb _ _ _ _ Efold). unfold txns_postings. rewrite map_app, concat_app, cell_count_app.
+    fold (txns_postings ts). rewrite (adjustments_other_accounts _ _ _ _ _ _ b cb Eadj (proj2 Hs) Hb HnAL HnI). lia.
+Qed.
